@@ -327,6 +327,35 @@ def _frame(o):
     return (tuple(arr.shape), tuple(getattr(m, "__dict__", {}).get("pixel_scales") or ()), npix)
 
 
+def _unit(o):
+    """length unit of the frame an object lives on (first pixel scale of the nearest mask found through plain attributes), or 1.0"""
+    seen = 0
+    todo = [o]
+    while todo and seen < 12:
+        x = todo.pop(0)
+        seen += 1
+        f = _frame(x)
+        if f and f[1]:
+            try:
+                return float(f[1][0])
+            except Exception:  # noqa: BLE001
+                return 1.0
+        d = getattr(x, "__dict__", {})
+        for k in ("mapper", "mapper_grids", "source_plane_data_grid", "dataset", "grid"):
+            if d.get(k) is not None:
+                todo.append(d[k])
+    return 1.0
+
+
+_WINDOWS = [(-1.0, 1.5, -1.25, 1.0), (-2.0, 2.0, -2.0, 2.0), (-0.5, 0.75, -0.25, 1.0)]
+
+
+def _window(rng, obj):
+    """one of three zoom windows, in the units of the receiver's frame (x0, x1, y0, y1)"""
+    u = _unit(obj)
+    return _T(*[v * u for v in rng.choice(_WINDOWS)])
+
+
 def curated_calls(obj, rng, nodes_by_type, env=None):
     """Candidate query calls (results are values to compare, not new nodes).  Pure function of (obj type/shape, rng)."""
     tn = type(obj).__name__
@@ -459,7 +488,7 @@ def curated_calls(obj, rng, nodes_by_type, env=None):
         if n:
             kw = {"values": {"$arr": [prng.fhex(float((7 * i) % 5) + 0.25 * i) for i in range(n)]}, "shape_native": rng.choice([_T(3, 3), _T(4, 5)])}
             if rng.random() < 0.4:
-                kw["extent"] = _T(-1.0, 1.5, -1.25, 1.0)
+                kw["extent"] = _window(rng, obj)
             out.append({"t": "call", "name": "interpolated_array_from", "kw": kw})
     if tn in ("Array2D", "Kernel2D"):
         # the non-seeded preprocessing helpers: pure functions of their arguments
@@ -531,6 +560,7 @@ def curated_calls(obj, rng, nodes_by_type, env=None):
         if isinstance(n, int) and n > 0:
             vals = [prng.fhex(rng.uniform(0.0, 2.0)) for _ in range(n)]
             out.append({"t": "call", "name": "interpolated_array_from", "kw": {"values": {"$arr": vals}, "shape_native": _T(rng.randrange(2, 6), rng.randrange(2, 6))}})
+            out.append({"t": "call", "name": "interpolated_array_from", "kw": {"values": {"$arr": vals}, "shape_native": rng.choice([_T(3, 3), _T(4, 5)]), "extent": _window(rng, obj)}})
         if isinstance(n, int) and n > 1:
             # groups of several mesh pixels, flat and nested (the forms the docstring describes)
             grp = [rng.randrange(n) for _ in range(rng.randrange(2, 4))]
@@ -552,6 +582,9 @@ def curated_calls(obj, rng, nodes_by_type, env=None):
         out.append({"t": "call", "name": "magnification_via_mesh_from", "kw": {}})
         out.append({"t": "call", "name": "interpolated_array_from", "kw": {"shape_native": _T(rng.randrange(2, 6), rng.randrange(2, 6))}})
         out.append({"t": "call", "name": "magnification_via_interpolation_from", "kw": {"shape_native": _T(rng.randrange(2, 6), rng.randrange(2, 6))}})
+        # zoom windows: few shapes and three windows (in the frame's own units), so that the same and nearly the same request recur
+        out.append({"t": "call", "name": "interpolated_array_from", "kw": {"shape_native": rng.choice([_T(3, 3), _T(4, 5)]), "extent": _window(rng, obj)}})
+        out.append({"t": "call", "name": "magnification_via_interpolation_from", "kw": {"shape_native": rng.choice([_T(3, 3), _T(4, 5)]), "extent": _window(rng, obj)}})
     if tn == "SimulatorImaging":
         a = pick("Array2D")
         if a:
